@@ -546,7 +546,11 @@ func (db *DB) close() (err error) {
 	db.opt.Debugf("Closing database")
 	db.opt.Infof("Lifetime L0 stalled for: %s\n", time.Duration(db.lc.l0stallsMs.Load()))
 
+	// See blockWrite for why the flag is set under writeChLock: a commit in flight either gets
+	// its request enqueued before the writer goroutine is stopped below, or is refused.
+	db.orc.writeChLock.Lock()
 	db.blockWrites.Store(1)
+	db.orc.writeChLock.Unlock()
 	db.isClosed.Store(1)
 
 	if db.closers.valueGC != nil {
@@ -1667,8 +1671,16 @@ func (db *DB) Flatten(workers int) error {
 }
 
 func (db *DB) blockWrite() error {
-	// Stop accepting new writes.
-	if !db.blockWrites.CompareAndSwap(0, 1) {
+	// Stop accepting new writes. A transaction obtains its commit timestamp and enqueues its
+	// writes under writeChLock. Flip the flag under the same lock: otherwise a transaction that
+	// has passed the blockWrites check could enqueue its request after the write channel was
+	// drained below. Nobody would process that request before writes are unblocked again, its
+	// commit timestamp would stay pending, and every new transaction - including the ones the
+	// drop itself starts - would wait for it forever.
+	db.orc.writeChLock.Lock()
+	blocked := db.blockWrites.CompareAndSwap(0, 1)
+	db.orc.writeChLock.Unlock()
+	if !blocked {
 		return ErrBlockedWrites
 	}
 
